@@ -237,6 +237,14 @@ Theorem C01_slashed_unbonding_halts_refuted : exists e, sc_end 12000000000 w_sc_
 Proof. exact sc_slashed_unbonding_halts. Qed.
 Print Assumptions C01_slashed_unbonding_halts_refuted.
 
+(* x/shareclass: a blocked recipient (module account) named in MsgNonVotingUndelegate: the payout
+   is refused, the end blocker fails at every block from the completion on (repaired: rejected) *)
+Theorem C01_blocked_recipient_halts_refuted :
+  sc_end 12000000000 {| sc_queue := [ShareClass.mkUnb 3 900 10000000000 50000]; sc_mod_bond := 0; sc_released := 50000; sc_blocked := [3] |}
+  = Err E_BLOCKED.
+Proof. exact sc_blocked_recipient_halts. Qed.
+Print Assumptions C01_blocked_recipient_halts_refuted.
+
 (* ------------------------------------------------------------------ non-vacuity *)
 (* a concrete block (epoch with two gauges, one pool without in-range liquidity, minute epoch
    firing, a challenged DA item due for tally on a slash-epoch height, metadata entries after the
@@ -258,7 +266,7 @@ Proof.
     + unfold da_inv. split; [vm_compute; reflexivity|]. split; [repeat constructor; vm_compute; congruence|].
       vm_compute. repeat split; congruence.
     + unfold tally_defined. vm_compute. discriminate.
-    + split; [repeat constructor; vm_compute; congruence|vm_compute; congruence].
+    + split; [repeat constructor; vm_compute; congruence|split; [vm_compute; congruence|reflexivity]].
   - eexists. split; [vm_compute; reflexivity|]. cbn [o_pds o_alloc o_mint o_sc].
     repeat split; try reflexivity. eexists. repeat split; reflexivity.
 Qed.
